@@ -5,7 +5,7 @@ import fsweep
 
 CASES = ["ref_sequence-filled", "obj_sequence", "empty_sequence", "singleton_ref", "decl_set", "enumerators", "parameters", "handlers",
          "ref_sequence-unfilled", "ref_sequence-half-filled", "warehouse-unfilled-walk", "warehouse-unfilled-product",
-         "warehouse-unfilled-sum", "expr_list-unfilled"]
+         "warehouse-unfilled-sum", "expr_list-unfilled", "unattached-parameter"]
 
 
 def scan(d, where, keys, res, replay):
@@ -78,7 +78,7 @@ def check(res):
     for idx, err in ccr:
         k = "crash:seq:" + CASES[idx]
         keys.add(k)
-        res.violation(k, "sequence case %s: undefined behaviour (sanitizer report) instead of a refusal" % CASES[idx],
+        res.violation(k, "sequence case %s: the process ended (sanitizer report, std::terminate or crash) instead of a refusal" % CASES[idx],
                       {"case": CASES[idx], "stderr": err[:3000], "rerun": "echo %s | build/<hash>/asan/c14_driver" % CASES[idx]})
     accesses = 0
     for c, o in zip(CASES, couts):
